@@ -52,10 +52,10 @@ func c05(tier string) int {
 	}
 	defer env.Close()
 	// the path program is also compared with native Go; for the corpus the all-alive link is the reference
-	env.CheckAll(append([]diffrun.Program{dcex.Program(), dcex.PanicInitProgram(), dcex.InitFormsProgram(), dcex.LinkChainProgram()}, dcex.MorePanicInit()...), []diffrun.Variant{diffrun.Plain, diffrun.AllAlive})
+	env.CheckAll(append([]diffrun.Program{dcex.Program(), dcex.PanicInitProgram(), dcex.InitFormsProgram(), dcex.LinkChainProgram(), dcex.MarkerProgram()}, dcex.MorePanicInit()...), []diffrun.Variant{diffrun.Plain, diffrun.AllAlive})
 	env.CheckAllAgainstVariant(corpus(tier == "thorough"), diffrun.AllAlive, []diffrun.Variant{diffrun.Plain})
 	return finishDiff(env, "C05", tier, start,
-		"every program is linked twice from the same archives - with dead-code elimination and with every declaration forced alive - and both runs must equal native Go: (a) the reachability-path program (things needed at run time but reachable only through one path: interface calls, interfaces with unexported methods from another package, method values, method expressions on values / pointers / interfaces, promotion through value / pointer / interface embedding to depth 2, generic call chains, methods of generic instances whose signatures mention other instances, byte vs uint8 instantiations, types local to (generic) functions, types used only in assertions / type switches / map keys / comparisons, package variable initialisers with side effects in every form (single, blank, multi-name, comma-ok, conversion), init functions, go:linkname targets for functions and value / pointer methods across three packages); the initialiser-forms program: 41 expression forms (calls in every operand position, append / copy writing through their arguments, receives, method values and expressions, generic calls, conversions, composite literals, logical operators) and 12 multi-name / comma-ok / blank declaration forms as initialisers of variables nothing refers to, in main and in an imported package; linkname chains of 2 and 3 hops whose intermediate implementations are referenced by no name; (b) the corpus of the other families (quick: a spread of 27 programs; thorough: all)",
+		"every program is linked twice from the same archives - with dead-code elimination and with every declaration forced alive - and both runs must equal native Go: (a) the reachability-path program (things needed at run time but reachable only through one path: interface calls, interfaces with unexported methods from another package, method values, method expressions on values / pointers / interfaces, promotion through value / pointer / interface embedding to depth 2, generic call chains, methods of generic instances whose signatures mention other instances, byte vs uint8 instantiations, types local to (generic) functions, types used only in assertions / type switches / map keys / comparisons, package variable initialisers with side effects in every form (single, blank, multi-name, comma-ok, conversion), init functions, go:linkname targets for functions and value / pointer methods across three packages); the initialiser-forms program: 41 expression forms (calls in every operand position, append / copy writing through their arguments, receives, method values and expressions, generic calls, conversions, composite literals, logical operators) and 12 multi-name / comma-ok / blank declaration forms as initialisers of variables nothing refers to, in main and in an imported package; linkname chains of 2 and 3 hops whose intermediate implementations are referenced by no name; sealed interfaces whose unexported marker method is never called (assertions, comma-ok, type switches, two packages); types declared inside function literals of generic functions and methods; (b) the corpus of the other families (quick: a spread of 27 programs; thorough: all)",
 		[]string{"reference = native Go on the same source and the all-alive link of the same archives"},
 		nil)
 }
